@@ -45,7 +45,8 @@ TRUSTED = [
 ASSUMPTIONS = [
     "k_init >= 1, k >= 0, eps_tol >= 0, at least one candidate; every aggregated loss is finite",
     "termination is claimed (C20_greedy_total) for max_it >= 0, or with_replacement=False, or early_stopping=True with eps_tol > 0 and "
-    "losses >= 0; early_stopping=False + with_replacement=True + max_it < 0 is excluded (C20_noES_replacement_nontermination_refuted)",
+    "losses >= 0; early_stopping=False + with_replacement=True + max_it < 0 is excluded (C20_noES_replacement_nontermination_refuted), "
+    "and so is eps_tol = 0 with a loss that is not integer valued (C20_eps0_nontermination_refuted): the generators keep eps_tol = 0 for the integer table losses",
     "no-worse is claimed with early stopping only (C20_noES_refuted)",
 ]
 RULE = ("topk/greedy: 1..12 candidates, all option combinations, losses SquaredError/AbsoluteError + MeanAggregator, "
@@ -738,8 +739,8 @@ def shrink_online(case):
 def streams(tier):
     th = tier == "thorough"
     return [
-        Stream("topk", mark_search(gen_topk(3000 if th else 300)), searching("topk", check_topk), shrink_sel, timeout=240),
-        Stream("greedy", mark_search(gen_greedy(3000 if th else 400)), searching("greedy", check_greedy), shrink_sel, timeout=240),
-        Stream("online", mark_search(gen_online(400 if th else 60)), searching("online", check_online), shrink_online, timeout=240),
+        Stream("topk", mark_search(gen_topk(5000 if th else 300)), searching("topk", check_topk), shrink_sel, timeout=240),
+        Stream("greedy", mark_search(gen_greedy(8000 if th else 400)), searching("greedy", check_greedy), shrink_sel, timeout=240),
+        Stream("online", mark_search(gen_online(1000 if th else 60)), searching("online", check_online), shrink_online, timeout=240),
         Stream("predictor_order", gen_predictor(5 if th else 4), check_predictor, None, timeout=240),
     ]
